@@ -21,6 +21,16 @@ func genC17(sc *Scenario) {
 		genMaskedOutsider(sc)
 	} else if !sc.ExplicitRoot && simrt.Flip("c17.case-sibling", 0.1) {
 		genCaseSibling(sc)
+	} else if simrt.Flip("c17.odd-root-file", 0.06) {
+		switch simrt.Choice("c17.odd-root-file-kind", 2) {
+		case 0:
+			// --thrift-root names the Thrift file itself: not a directory that holds the file
+			sc.ExplicitRoot, sc.RootRel = true, "thrift/"+sc.Prog.Files[0].RelPath()
+		case 1:
+			// a Thrift file called "...thrift": without its extension its name is ".."
+			sc.Prog.Files[0].Base = ".."
+			sc.DotDotName = true
+		}
 	}
 	for _, ps := range sc.Plugins {
 		ps.ModSuffix = "/" + sc.Prog.Files[0].RelPath()
@@ -489,7 +499,7 @@ func checkC17(res *world.Result, s *simrt.Sim, sc *Scenario, logs []*PlugLog, ho
 				hostErr, strings.Join(reasons, "; "), strings.Join(outChanged, " "))
 		}
 	}
-	if sc.APICrossParent && len(reasons) == 0 && host.Err != nil && len(outChanged) > 0 {
+	if (sc.APICrossParent || sc.DotDotName) && len(reasons) == 0 && host.Err != nil && len(outChanged) > 0 {
 		// whether the built-in generator fails on this program is not for this check to say,
 		// but a failed run (no plugin fails only at goodbye here) must leave nothing behind
 		late := false
@@ -511,7 +521,7 @@ func checkC17(res *world.Result, s *simrt.Sim, sc *Scenario, logs []*PlugLog, ho
 		}
 	}
 	// Success: exactly the union of core and plugin files appears.
-	if host.Err == nil && len(reasons) == 0 {
+	if host.Err == nil && len(reasons) == 0 && !sc.DotDotName {
 		want := map[string]bool{}
 		for _, c := range corePaths(sc) {
 			want["out/"+cleanRel(c)] = true
